@@ -196,14 +196,14 @@ def build_harness(pid, spec, variant):
     return binp, None
 
 
-def run_harness(binp, outdir, seed, tier, replay=None, timeout=3600):
+def run_harness(binp, outdir, seed, tier, replay=None, timeout=3600, asan_extra=''):
     os.makedirs(outdir, exist_ok=True)
     for f in ('ops.txt', 'impl.out', 'oracle.txt', 'stats.json', 'model.out'):
         try:
             os.remove(os.path.join(outdir, f))
         except OSError:
             pass
-    env = dict(os.environ, ASAN_OPTIONS='detect_leaks=0:abort_on_error=0:allocator_may_return_null=1',
+    env = dict(os.environ, ASAN_OPTIONS='detect_leaks=0:abort_on_error=0:allocator_may_return_null=1' + asan_extra,
                UBSAN_OPTIONS='print_stacktrace=1:halt_on_error=1')
     cmd = [binp, outdir, str(seed), tier] + ([replay] if replay else [])
     try:
@@ -268,7 +268,8 @@ def write_replay(pid, kind, payload):
 def one_pass(pid, spec, variant, binp, seed, tier, findings, res, replay=None):
     """run harness+driver+oracle once; accumulate into res; return (corr_mismatch_info|None, new_oracle_fails)"""
     outdir = os.path.join(BUILD, pid, 'run_%s' % (variant or 'd'))
-    rc, hout = run_harness(binp, outdir, seed, tier, replay, timeout=spec.get('timeout', 3600))
+    rc, hout = run_harness(binp, outdir, seed, tier, replay, timeout=spec.get('timeout', 3600),
+                           asan_extra=spec.get('asan_options', ''))
     ops = read_lines(os.path.join(outdir, 'ops.txt'))
     implo = read_lines(os.path.join(outdir, 'impl.out'))
     oracle = read_lines(os.path.join(outdir, 'oracle.txt'))
